@@ -36,7 +36,9 @@ Step(e) ==
                  \* anyone; what must never happen is that decoding returns DIFFERENT data.
                  \o (IF (FletcherOutermost /\ e.wacc > 0) \/ e.wneq > 0
                      THEN <<[diag |-> "corruption-not-detected", path |-> "writer-remove", accepted |-> e.wacc, differing |-> e.wneq,
-                             tried |-> e.corrupt, outermost |-> FletcherOutermost]>> ELSE <<>>)
+                             tried |-> e.corrupt, outermost |-> FletcherOutermost,
+                             \* what the accepted different data looks like: only zero bytes missing from or added to the end, or anything else
+                             shape |-> IF e.wneq > 0 /\ e.wother = 0 THEN "trailing-zeros-only" ELSE "bytes-differ"]>> ELSE <<>>)
                  \o (IF (FletcherOutermost /\ e.racc > 0) \/ e.rneq > 0
                      THEN <<[diag |-> "corruption-not-detected", path |-> "reader-direct", accepted |-> e.racc, differing |-> e.rneq,
                              tried |-> e.corrupt, outermost |-> FletcherOutermost]>> ELSE <<>>)
